@@ -213,6 +213,14 @@ class Extractor:
         self.rename = rename  # param name -> canonical (NODE / FCP / SELF)
         self.nloop = 0
         self.messages: List[str] = []
+        self.collect = None  # when a list: every return is recorded as (Path, substituted value)
+
+    def run_returns(self):
+        """All returns of the function: [(Path, substituted return expression or None)]."""
+        self.collect = []
+        env: Dict[str, ast.AST] = {k: ast.Name(id=v, ctx=ast.Load()) for k, v in self.rename.items()}
+        self.block(self.fn.body, env, [Path()])
+        return self.collect
 
     def run(self) -> List[Path]:
         env: Dict[str, ast.AST] = {k: ast.Name(id=v, ctx=ast.Load()) for k, v in self.rename.items()}
@@ -256,6 +264,13 @@ class Extractor:
                         env[x.id] = ast.Subscript(value=copy.deepcopy(val), slice=ast.Constant(value=i), ctx=ast.Load())
                 return [], cur
             raise Undecided("store to %s" % norm(tgt, 40))
+        if isinstance(st, ast.Return) and self.collect is not None:
+            v = self.sub(st.value, env) if st.value is not None else None
+            for p in cur:
+                self.collect.append((p, v))
+            return [], []
+        if isinstance(st, ast.Expr) and self.collect is not None:
+            return [], cur  # expression statements (calls for effect) are ignored when collecting returns
         if isinstance(st, ast.Return):
             v = st.value
             if v is not None and self.is_error(v):
